@@ -28,7 +28,7 @@ Proof. exact exec_queue_frame. Qed.
 Theorem c18_select :
   forall now s c dbi a oracle cn,
   zlookup c (s_conns s) = Some cn ->
-  let s0 := if mem_name (bs "SELECT") write_commands then log_aof s [FBulk (bs "SELECT"); FBulk a] else s in
+  let s0 := if mem_name (bs "SELECT") write_commands then log_aof_in s dbi [FBulk (bs "SELECT"); FBulk a] else s in
   normal_command now s c dbi [FBulk (bs "SELECT"); FBulk a] oracle =
     match parse_usize a with
     | Some n => if 16 <=? n then (r_err, s0)
